@@ -675,7 +675,7 @@ func TestCrashFailedReorgUnflushed(t *testing.T) {
 		limit = 600
 	}
 	d := pbt.Direct{Name: "crash_failed_reorg"}
-	pbt.Check(t, pbt.Cfg{Name: "failed_reorg_unflushed", Quick: 16, Thorough: 800}, func(r *pbt.Run) {
+	pbt.Check(t, pbt.Cfg{Name: "failed_reorg_unflushed", Quick: 16, Thorough: 160}, func(r *pbt.Run) {
 		c := genFailedReorgUnflushed(r.T)
 		r.Case(c)
 		r.Class("failed-reorg-with-unflushed-side-blocks")
@@ -699,7 +699,7 @@ func TestCrashReorgAfterSnapshot(t *testing.T) {
 		limit = 600
 	}
 	d := pbt.Direct{Name: "crash_reorg"}
-	pbt.Check(t, pbt.Cfg{Name: "reorg_after_snapshot", Quick: 16, Thorough: 800}, func(r *pbt.Run) {
+	pbt.Check(t, pbt.Cfg{Name: "reorg_after_snapshot", Quick: 16, Thorough: 160}, func(r *pbt.Run) {
 		c := genReorgAfterSnapshot(r.T)
 		r.Case(c)
 		r.Class("reorg-after-snapshot")
@@ -723,7 +723,7 @@ func TestCrashPoints(t *testing.T) {
 		limit = 400
 	}
 	d := pbt.Direct{Name: "crash"}
-	pbt.Check(t, pbt.Cfg{Name: "crash_workloads", Quick: 48, Thorough: 1600}, func(r *pbt.Run) {
+	pbt.Check(t, pbt.Cfg{Name: "crash_workloads", Quick: 48, Thorough: 320}, func(r *pbt.Run) {
 		c := genCase(r.T)
 		r.Case(c)
 		hasIdle, hasFork := false, false
@@ -762,7 +762,7 @@ func TestCrashPoints(t *testing.T) {
 // the block files before it starts a snapshot, so no crash produces that image.)
 func TestTruncation(t *testing.T) {
 	d := pbt.Direct{Name: "truncate"}
-	pbt.Check(t, pbt.Cfg{Name: "truncate_workloads", Quick: 16, Thorough: 600}, func(r *pbt.Run) {
+	pbt.Check(t, pbt.Cfg{Name: "truncate_workloads", Quick: 16, Thorough: 128}, func(r *pbt.Run) {
 		c := genCase(r.T)
 		c.Sim.Ops = append(c.Sim.Ops, sim.Op{Kind: "idle", Arg: 1})
 		n := rapid.IntRange(1, 5).Draw(r.T, "after")
